@@ -338,3 +338,79 @@ fn c14_square_file_rank_total() {
     kani::cover!(sq.is_ok(), "valid square text reachable");
     kani::cover!(sq.is_err() && s.len() == 2, "two-byte non-square reachable");
 }
+
+// ---------------------------------------------------------------------------------------------------------------
+// MoveSet::find -- the resolver used when SAN text is applied to a position (book parser, CLI)
+// ---------------------------------------------------------------------------------------------------------------
+fn model_vec_push<T, A: std::alloc::Allocator>(v: &mut Vec<T, A>, value: T) {
+    let len = v.len();
+    assert!(len < v.capacity(), "the harness vector has spare capacity");
+    unsafe {
+        std::ptr::write(v.as_mut_ptr().add(len), value);
+        v.set_len(len + 1);
+    }
+}
+
+/// MoveSet::find(query) over a list of up to three arbitrary moves: it returns the FIRST move of the list that the query
+/// matches (MoveQuery::test is under contract above) together with that move's own successor, and None exactly when no
+/// move matches.  (Each successor is tagged through its clocks so that a move paired with another move's successor
+/// would show.)
+#[kani::proof]
+#[kani::unwind(8)]
+#[kani::stub(std::vec::Vec::push, model_vec_push)]
+fn c12_moveset_find_contract() {
+    let raws: [u32; 3] = kani::any();
+    let n: usize = kani::any();
+    kani::assume(n <= 3);
+    kani::assume(crate::moves::verif_c20::valid_raw(raws[0]) && crate::moves::verif_c20::valid_raw(raws[1]) && crate::moves::verif_c20::valid_raw(raws[2]));
+    let mut v: Vec<crate::MoveResult> = Vec::with_capacity(3);
+    let mut i = 0;
+    while i < 3 {
+        if i < n {
+            let st = crate::State::new(
+                board_from(&[0u64; 16]),
+                Color::White,
+                crate::utils::ArrayMap::new([crate::CastleRights::NONE, crate::CastleRights::NONE]),
+                None,
+                crate::Clock { halfmove_clock: 100 + i, fullmove_number: 1 },
+            );
+            v.push(crate::MoveResult(crate::moves::verif_c20::move_from_raw(raws[i]), st));
+        }
+        i += 1;
+    }
+    let set = crate::MoveSet::new(v);
+    // a symbolic query over the fields SAN and coordinate text can set
+    let mut q = MoveQuery::new();
+    if kani::any() {
+        q.set_origin(any_square());
+    }
+    if kani::any() {
+        q.set_destination(any_square());
+    }
+    if kani::any() {
+        q.set_piece(any_kind());
+    }
+    if let Some(k) = any_opt_kind() {
+        q.set_promotion(k);
+    }
+    let mut first: Option<usize> = None;
+    let mut i = 0;
+    while i < 3 {
+        if i < n && first.is_none() && q.test(&crate::moves::verif_c20::move_from_raw(raws[i])) {
+            first = Some(i);
+        }
+        i += 1;
+    }
+    let r = set.find(&q);
+    match (r, first) {
+        (None, None) => {}
+        (Some(crate::MoveResult(m, s)), Some(i)) => {
+            assert!(m.as_raw() == raws[i], "the first matching move of the list");
+            assert!(s.clock().halfmove_clock == 100 + i, "paired with its own successor");
+        }
+        _ => assert!(false, "find answers exactly when some move matches"),
+    }
+    kani::cover!(first == Some(2), "third move matches reachable");
+    kani::cover!(first.is_none() && n == 3, "no match reachable");
+    std::mem::forget(set);
+}
